@@ -137,4 +137,58 @@ theorem join_back_sql_eq_loses_null_rows :
     viaMagicWith sqlEq (fun a : Option Nat => a) (fun _ => [1]) [none] = [] ∧
       perRow (fun a : Option Nat => a) (fun _ => [1]) [none] = [(none, 1)] := by decide
 
+/-- `x IN (ys)` in three-valued logic over nullable integers: TRUE if some element equals `x`,
+otherwise NULL if `x` or some element is NULL, otherwise FALSE. -/
+def in3 (x : Option Nat) (ys : List (Option Nat)) : Option Bool :=
+  match x with
+  | none => if ys.isEmpty then some false else none
+  | some v =>
+    if ys.any (fun y => y == some v) then some true
+    else if ys.any (fun y => y == none) then none
+    else some false
+
+def not3 : Option Bool → Option Bool
+  | some b => some (!b)
+  | none => none
+
+/-- `WHERE x NOT IN (subquery)` keeps the rows for which NOT IN is TRUE. -/
+def whereNotIn (xs ys : List (Option Nat)) : List (Option Nat) :=
+  xs.filter fun x => not3 (in3 x ys) == some true
+
+/-- The anti join on `=` that the planner produces for NOT IN. -/
+def antiJoinEq (xs ys : List (Option Nat)) : List (Option Nat) :=
+  xs.filter fun x => !ys.any (fun y => sqlEq x y)
+
+/-- **NOT IN is the anti join exactly when no NULL is involved**: without NULLs on either side the
+anti-join plan returns what NOT IN means. -/
+theorem not_in_eq_anti_join_without_nulls (xs ys : List (Option Nat))
+    (hx : ∀ x ∈ xs, x ≠ none) (hy : ∀ y ∈ ys, y ≠ none) :
+    whereNotIn xs ys = antiJoinEq xs ys := by
+  unfold whereNotIn antiJoinEq
+  apply List.filter_congr
+  intro x hxm
+  cases x with
+  | none => exact absurd rfl (hx none hxm)
+  | some v =>
+    have hnone : ys.any (fun y => y == none) = false := by
+      rw [List.any_eq_false]
+      intro y hym
+      have := hy y hym
+      cases y <;> simp_all
+    have hsame : ys.any (fun y => sqlEq (some v) y) = ys.any (fun y => y == some v) := by
+      congr 1
+      funext y
+      cases y with
+      | none => simp [sqlEq]
+      | some w =>
+        simp only [sqlEq]
+        exact BEq.comm
+    simp only [in3, hnone, hsame]
+    cases h : ys.any (fun y => y == some v) <;> simp [not3]
+
+/-- With a NULL in the subquery the anti join is wrong: `2 NOT IN (1, NULL)` is NULL, so the row is
+filtered out, but the anti join finds no equal element and keeps it (known finding F7). -/
+theorem not_in_anti_join_wrong_with_null :
+    whereNotIn [some 2] [some 1, none] = [] ∧ antiJoinEq [some 2] [some 1, none] = [some 2] := by decide
+
 end GlareModel.Props.C09
